@@ -23,7 +23,17 @@ type c10obs struct {
 
 func checkC10(c *vx.Ctx) {
 	c.Level = "fault_enumeration"
-	c.Rule = "base histories = the benign scripts of the mirror harness (40 events) and of the engine harness (54 events) plus selected single deviations (round change, future vote, garbage vote, competing proposal, stalled consumers); for every base history and every store write index k of every event, the store wrappers freeze after write k (every later write is dropped and fails), the node is stopped, restarted on the same stores, the interrupted message is re-delivered and the history continues; thorough adds a second crash inside the re-delivery; oracles: restart succeeds, positions not behind the durable ones, committed headers kept, persisted votes and proposals present again and verifying, finalizations neither refused nor overwritten, final committed chain / voting position / vote sets equal to the crash-free run; a case = (history, event, write index); non-trivial = the crash really interrupted an event (the store froze), distinct by (history, crash point)"
+	crashEnum(c, []string{"C10"})
+}
+
+// crashEnum enumerates crash points; report lists the properties whose violations the calling check reports.
+func crashEnum(c *vx.Ctx, report []string) {
+	ruleText := "base histories = the benign scripts of the mirror harness (40 events) and of the engine harness (54 events) plus selected single deviations (round change, future vote, garbage vote, competing proposal, stalled consumers); for every base history and every store write index k of every event, the store wrappers freeze after write k (every later write is dropped and fails), the node is stopped, restarted on the same stores, the interrupted message is re-delivered and the history continues; thorough adds a second crash inside the re-delivery; oracles: restart succeeds, positions not behind the durable ones, committed headers kept, persisted votes and proposals present again and verifying, finalizations neither refused nor overwritten, final committed chain / voting position / vote sets equal to the crash-free run; a case = (history, event, write index); non-trivial = the crash really interrupted an event (the store froze), distinct by (history, crash point)"
+	if c.Rule == "" {
+		c.Rule = ruleText
+	} else {
+		c.Rule += " PLUS crash points: " + ruleText
+	}
 	props := "C10,C04"
 	type base struct {
 		exec string
@@ -60,7 +70,7 @@ func checkC10(c *vx.Ctx) {
 	var cases []crashCase
 	script := map[string][]string{"mirror": benignScript(), "node": nodeScript()}
 	for i, r := range refs {
-		c.Absorb(refJobs[i], r, "C10")
+		c.Absorb(refJobs[i], r, report...)
 		if r.Crash != "" || r.HarnessErr != "" || len(r.Obs) == 0 {
 			continue
 		}
@@ -100,7 +110,13 @@ func checkC10(c *vx.Ctx) {
 	}
 	st := &exploreStats{keys: map[string]struct{}{}}
 	n := 0
-	runJobs(c, jobs, st, []string{"C10"}, func(j vx.Job, r vx.Result) {
+	reportsC10 := false
+	for _, p := range report {
+		if p == "C10" {
+			reportsC10 = true
+		}
+	}
+	runJobs(c, jobs, st, report, func(j vx.Job, r vx.Result) {
 		n++
 		var ob, ref c10obs
 		if r.Crash != "" || r.HarnessErr != "" || json.Unmarshal(r.Obs, &ob) != nil {
@@ -112,7 +128,7 @@ func checkC10(c *vx.Ctx) {
 		if ob.Crashed > 0 {
 			c.NonTrivial(strings.Join(j.Hist, " "))
 		}
-		if j.Exec == "mirror" && len(r.Viol) == 0 && ob.End != ref.End {
+		if reportsC10 && j.Exec == "mirror" && len(r.Viol) == 0 && ob.End != ref.End {
 			c.Violate(vx.Violation{Prop: "C10", Sig: "end-state-differs-from-crash-free-run:" + j.Exec,
 				Msg: fmt.Sprintf("after the crash, restart and re-delivery the final state differs from the crash-free run of the same history\n  crash-free: %s\n  with crash: %s", ref.End, ob.End)}, j)
 		}
